@@ -84,6 +84,8 @@ def configs(tier):
         for item in ('int', 'slice_ss', 'list2'):
             if backend == 'cbin' and item == 'list2':
                 continue
+            if quick and K == 3 and item == 'slice_ss':
+                continue      # ~100 s on its own: thorough tier only
             out.append({'backend': backend, 'K': K, 'nc': 2, 'dtype': 'int16', 'item': item,
                         'sel': None if item != 'slice_ss' else [1], 'prior': True})
     # slice bounds / integer index given as unsigned NumPy scalars (what indexing with entries of a uint array gives)
